@@ -22,14 +22,15 @@ m = {"version": 1,
                "baseline_off_cmd": "./vcheck baseline-off",
                "source_commits": hooks_commits, "add_only": True},
      "engines": [
-         {"name": "vcheck", "path": "vcheck", "serves_properties": sorted(checks), "kind_free_text": "driver: rebuilds STIR libraries + harness from /repo's working tree, shards the enumerated space over processes, merges evidence, replays violations twice, matches KNOWN_FINDINGS.txt"},
-         {"name": "vmc", "path": "engine/vmc.h", "serves_properties": sorted(checks), "kind_free_text": "bounded-exhaustive enumeration runtime: odometer over finite domains, explicit-state BFS over operation histories with canonical-state dedup on the real objects, crash capture"},
+         {"name": "vcheck", "path": "vcheck", "serves_properties": sorted(c for c in checks if c not in na_reasons), "kind_free_text": "driver: rebuilds STIR libraries + harness from /repo's working tree, shards the enumerated space over processes, merges evidence, replays violations twice, matches KNOWN_FINDINGS.txt"},
+         {"name": "vmc", "path": "engine/vmc.h", "serves_properties": sorted(c for c in checks if c not in na_reasons), "kind_free_text": "bounded-exhaustive enumeration runtime: odometer over finite domains, explicit-state BFS over operation histories with canonical-state dedup on the real objects, crash capture"},
      ],
      "checks": [], "not_applicable": []}
-if os.path.exists(os.path.join(V, "engine", "vomp")):
-    m["engines"].append({"name": "vomp", "path": "engine/vomp", "serves_properties": ["C18"], "kind_free_text": "controllable OpenMP (GOMP ABI) runtime: serialising scheduler over hooked synchronisation points + preemption-bounded DFS over schedules; free-running pthread mode for the ThreadSanitizer pass"})
+if os.path.exists(os.path.join(V, "engine", "vomp")) and "C18" not in na_reasons:
+    m["engines"].append({"name": "vomp", "path": "engine/vomp", "serves_properties": ["C18"], "kind_free_text": "controllable OpenMP (GOMP ABI) runtime: serialising scheduler over hooked synchronisation points + preemption-bounded DFS over schedules (also under ThreadSanitizer); observer for complete event traces"})
+    m["engines"].append({"name": "tlc-binding", "path": "checks/c18_model.py", "serves_properties": ["C18"], "kind_free_text": "TLC model checking of models/C18Dcl.tla + trace-set equality between the model's behaviours and the implementation's event traces over all schedules"})
 for cid in ids:
-    if cid in checks:
+    if cid in checks and cid not in na_reasons:
         c = checks[cid]
         m["checks"].append({
             "property_id": cid,
